@@ -83,25 +83,25 @@ Proof.
   pose proof (grun_quiet _ _ _ _ _ _ _ H H0) as [Q _]. lia.
 Qed.
 
+Definition gop_no_corrupt (g : gop) : Prop :=
+  match g with GOp o => op_no_corrupt o | GSetParams _ _ _ => True end.
+
+Lemma grun_healthy : forall kf gops P b c ps ev,
+  Forall gop_no_corrupt gops -> grun kf (P, init b c) gops = (ps, ev) -> healthy (snd ps).
+Proof.
+  intros. eapply (grun_inv kf healthy op_no_corrupt); [| |exact H|exact H0].
+  - intros; eapply step_healthy; eauto.
+  - apply init_healthy.
+Qed.
+
 Theorem gend_block_never_fails : forall kf gops P b c ps ev t stk,
-  Forall gop_no_govsend gops -> grun kf (P, init b c) gops = (ps, ev) ->
+  Forall gop_no_govsend gops -> Forall gop_no_corrupt gops ->
+  grun kf (P, init b c) gops = (ps, ev) ->
   end_block (fst ps) kf t stk (snd ps) <> None.
 Proof.
-  intros until stk. intros Hg Hr.
-  pose proof (grun_wf _ _ _ _ _ _ _ Hr) as W. pose proof (grun_quiet _ _ _ _ _ _ _ Hg Hr) as Q.
-  destruct ps as [P' s]; cbn in *. unfold end_block.
-  destruct (fold_ids (process_inactive P') _ s) as [[s1 e1]|] eqn:E1.
-  - assert (W1 : wf s1) by (eapply fold_ids_wf; [|exact W|exact E1]; intros; eapply process_inactive_wf; eauto).
-    assert (Q1 : quiet s1) by (eapply (fold_ids_pres quiet); [|exact Q|exact E1]; intros; eapply process_inactive_quiet; eauto).
-    destruct (fold_ids (process_active P' kf stk) _ s1) as [[s2 e2]|] eqn:E2; [discriminate|].
-    exfalso. revert E2. apply fold_ids_total; auto.
-    + intros; now apply process_active_total.
-    + intros; eapply process_active_wf; eauto.
-    + intros; eapply process_active_quiet; eauto.
-  - exfalso. revert E1. apply fold_ids_total; auto.
-    + intros; now apply process_inactive_total.
-    + intros; eapply process_inactive_wf; eauto.
-    + intros; eapply process_inactive_quiet; eauto.
+  intros until stk. intros Hg Hc Hr. apply end_block_total.
+  - eapply grun_wf; eauto.
+  - split; [eapply grun_quiet; eauto|eapply grun_healthy; eauto].
 Qed.
 
 (* payout exactly once, with the Params changing in between *)
@@ -354,13 +354,17 @@ Lemma process_inactive_value : forall A P s id s' ev, NoDup A -> closed_in A s -
 Proof.
   unfold process_inactive. intros until ev. intros N C.
   destruct (find_prop id (props s)) as [p|] eqn:Hf; [|intro H; inversion H; subst; auto].
-  destruct (p_status p); try solve [intro H; inversion H; subst; auto].
-  destruct (pay_out s p (burn_prevote P)) as [[s1 e1]|] eqn:Hp; [|discriminate].
-  intro H; inversion H; subst. rewrite value_set_props.
   assert (D : prop_in A p).
   { unfold closed_in in C. rewrite Forall_forall in C. apply C. eapply find_prop_In; eauto. }
-  split; [eapply pay_out_value; [exact N|apply D|exact Hp]|].
-  apply pay_out_some in Hp as (Hpr & _). eapply closed_upd; [exact C|exact Hpr|]. intros; split; reflexivity.
+  destruct (p_status p); try solve [intro H; inversion H; subst; auto]; try discriminate.
+  - destruct (pay_out s p (burn_prevote P)) as [[s1 e1]|] eqn:Hp; [|discriminate].
+    intro H; inversion H; subst. rewrite value_set_props.
+    split; [eapply pay_out_value; [exact N|apply D|exact Hp]|].
+    apply pay_out_some in Hp as (Hpr & _). eapply closed_upd; [exact C|exact Hpr|]. intros; split; reflexivity.
+  - destruct (pay_out s p false) as [[s1 e1]|] eqn:Hp; [|discriminate].
+    intro H; inversion H; subst. rewrite value_set_props.
+    split; [eapply pay_out_value; [exact N|apply D|exact Hp]|].
+    apply pay_out_some in Hp as (Hpr & _). eapply closed_upd; [exact C|exact Hpr|]. intros; split; reflexivity.
 Qed.
 
 Lemma process_active_value : forall A P kf stk s id s' ev, NoDup A -> closed_in A s ->
@@ -368,9 +372,14 @@ Lemma process_active_value : forall A P kf stk s id s' ev, NoDup A -> closed_in 
 Proof.
   unfold process_active. intros until ev. intros N C.
   destruct (find_prop id (props s)) as [p|] eqn:Hf; [|intro H; inversion H; subst; auto].
-  destruct (p_status p); try solve [intro H; inversion H; subst; auto].
   assert (D : prop_in A p).
   { unfold closed_in in C. rewrite Forall_forall in C. apply C. eapply find_prop_In; eauto. }
+  destruct (p_status p); try solve [intro H; inversion H; subst; auto].
+  2:{ destruct (bad_active_dequeued_by_key P); [|discriminate].
+      destruct (pay_out s p false) as [[s1 e1]|] eqn:Hp; [|discriminate].
+      intro H; inversion H; subst. rewrite value_set_props.
+      split; [eapply pay_out_value; [exact N|apply D|exact Hp]|].
+      apply pay_out_some in Hp as (Hpr & _). eapply closed_upd; [exact C|exact Hpr|]. intros; split; reflexivity. }
   set (v := tally P kf (custom s) stk p).
   assert (K : forall q : proposal -> proposal,
              (forall x, p_deps (q x) = p_deps x /\ p_msgs (q x) = p_msgs x) ->
@@ -446,6 +455,7 @@ Proof.
     { unfold closed_in in C. rewrite Forall_forall in C. apply C. eapply find_prop_In; eauto. }
     split.
     + unfold cancel in H0. rewrite Hf in H0.
+      destruct (is_bad (p_status p)); [inversion H0; subst; lia|].
       destruct (is_removed (p_status p)); [inversion H0; subst; lia|].
       destruct (negb (p_proposer p =? proposer)); [inversion H0; subst; lia|].
       destruct (negb (is_open (p_status p))); [inversion H0; subst; lia|].
@@ -472,6 +482,9 @@ Proof.
   - destruct (negb authorized); intro H; injection H as <- <- <-; (split; [cbn; unfold value; cbn; lia|assumption]).
   - destruct (bal s acct + delta <? 0); intro H; injection H as <- <- <-; [split; [cbn; lia|assumption]|].
     cbn in Ho. split; [|assumption]. unfold value; cbn. rewrite sumb_add_in by assumption. lia.
+  - destruct (corrupt s pid) as [r0 s0] eqn:E. intro H; injection H as <- <- <-. cbn [inflow].
+    apply corrupt_inv in E as [->|(p & st & _ & _ & ->)]; [split; [lia|assumption]|].
+    split; [rewrite value_set_props; lia|]. eapply (closed_upd A s s); [exact C|reflexivity|]. intros; split; reflexivity.
 Qed.
 
 (* the sum of the outside credits of a history *)
@@ -525,7 +538,8 @@ Definition with_params (P : params) (mind vp q : Z) : params :=
      quorum := q; threshold := threshold P; exp_threshold := exp_threshold P; veto_threshold := veto_threshold P;
      min_initial_ratio := min_initial_ratio P; min_deposit_ratio := min_deposit_ratio P;
      cancel_ratio := cancel_ratio P; cancel_dest := cancel_dest P;
-     burn_prevote := burn_prevote P; burn_quorum := burn_quorum P; burn_veto := burn_veto P |}.
+     burn_prevote := burn_prevote P; burn_quorum := burn_quorum P; burn_veto := burn_veto P;
+     bad_inactive_dequeued := bad_inactive_dequeued P; bad_active_dequeued_by_key := bad_active_dequeued_by_key P |}.
 
 (* proposal 1 activates under the genesis Params (10,000 FX, 14 days); then the minimum is doubled,
    the voting period cut to 3 days and the quorum raised to 90%; proposal 2, submitted with 10,000 FX,
